@@ -1,5 +1,5 @@
 From Coq Require Import Extraction ExtrOcamlBasic.
-From SV Require Import Model.Rows Model.SplitArray Model.Chunk Model.Rechunker.
+From SV Require Import Model.Rows Model.SplitArray Model.Chunk Model.Rechunker Model.Merge.
 Extraction Language OCaml.
 Extraction "model.ml" split_array mk_chunk chunk_split concatenate continuity_check
-  diff gap_indices get_splits receive rechunk_stream.
+  diff gap_indices get_splits receive rechunk_stream merge.
